@@ -209,6 +209,21 @@ func (s *ldapService) SetChannel(c pushers.Channel) {
 }
 
 func (s *ldapService) Handle(ctx context.Context, conn net.Conn) error {
+	// Handle runs concurrently for every connection: the connection, its
+	// reader, the tls and login state live in a copy of the service with
+	// request handlers of its own
+	sc := &ldapService{
+		Server: s.Server,
+		c:      s.c,
+	}
+
+	sc.Handlers = make([]requestHandler, 0, 4)
+	sc.setHandlers()
+
+	return sc.handle(ctx, conn)
+}
+
+func (s *ldapService) handle(ctx context.Context, conn net.Conn) error {
 	s.wantTLS = false
 
 	s.login = "" // set the anonymous authstate
